@@ -18,6 +18,15 @@ fn nontrivial(r: &Run) -> Option<String> {
     }
 }
 
+fn nontrivial_mixed(r: &Run) -> Option<String> {
+    let s = &r.st;
+    if s.order_checks_mixed2 > 0 {
+        Some(format!("{} wraps={}", shape(r), if s.wraps > 2 { "3+" } else { "1-2" }))
+    } else {
+        None
+    }
+}
+
 pub fn e6_campaigns(_tier: Tier) -> Vec<Box<dyn DynCampaign>> {
     let mut v: Vec<Box<dyn DynCampaign>> = vec![Box::new(StateCampaign {
         name: "c11_order",
@@ -28,6 +37,17 @@ pub fn e6_campaigns(_tier: Tier) -> Vec<Box<dyn DynCampaign>> {
         probes: vec![],
         nontrivial,
     })];
+    // mixed QoS 1 / QoS 2 traffic, PUBACKs in send order, QoS 2 flows completing anywhere; the order
+    // of the QoS 1 subsequence is asserted inside the region where the rotation is right by design
+    v.push(Box::new(StateCampaign {
+        name: "c11_order_mixed",
+        gen: GenCfg { versions: Versions::V4, limits: Limits::Small8, w: Weights::ORDER_MIXED, max_ops: 120, manual_8: 1 },
+        cfg: Cfg { groups: G11 | G11M, allow: 0, force_resume: true },
+        quick: 40_000,
+        thorough: 1_000_000,
+        probes: vec![],
+        nontrivial: nontrivial_mixed,
+    }));
     let g = GenCfg { versions: Versions::V4, limits: Limits::Small8, w: Weights::ORDER_GAPS, max_ops: 60, manual_8: 0 };
     v.push(Box::new(probe("c11_probe_k9", R_K9, G11, g, vec!["c11:clean_order@v4"], nontrivial)));
     v
